@@ -132,19 +132,22 @@ requests:
       - type: "assert/response"
         status_code: 200
 `
-	// three ways to assert on a well-behaved response (body is about 25 bytes and contains "tok")
+	// five ways to assert on a well-behaved response (body is about 25 bytes and contains "tok")
 	asserts := []string{
 		"        body: [\"tok\"]\n",
 		"        size: {val: 5, op: \">\"}\n",
 		"        body: [\"tok\", \"n\"]\n        headers: {\"X-Tok\": \"t\", \"Content-Type\": \"json\"}\n        size: {val: 100000, op: \"<\"}\n",
+		// header names are case-insensitive
+		"        headers: {\"x-tok\": \"t\", \"content-type\": \"application/json\"}\n",
+		"        body: [\"tok\"]\n        headers: {\"X-TOK\": \"t\", \"CONTENT-TYPE\": \"json\"}\n",
 	}
-	ai := int(c.Seed % 3)
+	ai := int(c.Seed % 5)
 	if ai < 0 {
 		ai = -ai
 	}
 	nextPost := func() string {
 		ai++
-		return postHead + asserts[ai%3]
+		return postHead + asserts[ai%len(asserts)]
 	}
 	for _, s := range c.Scns {
 		init := s.Name + "_init"
